@@ -184,6 +184,16 @@ func (c *checkCtx) runFuncs(u Unit) {
 				ps = append(ps, x.Prepare(o))
 			}
 			fr.Outcomes = sym.SolveAll(ps, c.timeout, c.thorough, 4)
+			// an obligation no solver decided in time is tried once more, alone and with six times
+			// the budget: a loaded machine must not turn into an alarm
+			for i, o := range fr.Outcomes {
+				if o.Status == "undischarged" {
+					if again := sym.Solve(ps[i], 6*c.timeout, c.thorough); again.Status != "undischarged" {
+						again.Secs += o.Secs
+						fr.Outcomes[i] = again
+					}
+				}
+			}
 			c.mu.Lock()
 			for _, n := range fr.Report.Notes {
 				c.trusted[n] = true
